@@ -7,7 +7,7 @@ import ast
 from ..alpha import Loc, amatch
 from ..cfg import handler_names
 from ..const import UNKNOWN, Folder
-from ..flow import Slicer, always_exits, flat_guards, parent_map
+from ..flow import Slicer, always_exits, conjuncts, flat_guards, parent_map
 from ..model import FuncInfo, Model, dotted, norm, walk_no_nested
 from ..report import Run
 from .common import CallGraph, ExcFlow, short
@@ -1342,7 +1342,13 @@ def _r10_r11_readers(model: Model, run: Run, cg: CallGraph, dec: set[str]) -> No
                 if not lacking:
                     run.ok(inst, 'defined by every class of TYPE %s' % [short(g) for g in group])
                     continue
-                ex = _excluded_by(model, f, flat_guards(f.node, r, pm) + flat_guards(f.node, c, pm), names, group)
+                gs11 = []
+                l11 = Loc(model, f)
+                for t11, pol11 in flat_guards(f.node, r, pm) + flat_guards(f.node, c, pm):
+                    # a test hoisted into a local bound once (`is_update = isinstance(message, Update)`) is that test
+                    v11 = l11.single(t11.id) if isinstance(t11, ast.Name) else None
+                    gs11.extend(conjuncts(v11, pol11) if isinstance(v11, ast.expr) else [(t11, pol11)])
+                ex = _excluded_by(model, f, gs11, names, group)
                 left = lacking - ex
                 if left and src in {a.arg for a in f.node.args.args}:
                     # every call site from a reader function excludes them
